@@ -59,8 +59,10 @@ def block_mutants():
         det = json.load(open(f"{ROOT}/seeded/DETECTION.json"))
         ok = sum(1 for v in det.values() if v.get("detected"))
         heads = sorted({v.get("repo_head") for v in det.values() if v.get("repo_head")})
-        note = (f" Detection was re-checked for all of them after the last extension of the checks (`run/recheck_detection.py`: apply, run the "
-                f"quick tier at VERIF_SEED=1, restore): {ok} of {len(det)} reported a violation (/repo at {', '.join(heads)}; result in seeded/DETECTION.json).")
+        missed = sorted(k for k, v in det.items() if not v.get("detected"))
+        note = (f" Detection was re-checked after the extensions of the checks (`run/recheck_detection.py`: apply, run the "
+                f"quick tier at VERIF_SEED=1, restore): {ok} of {len(det)} reported a violation (/repo at {', '.join(heads)}; result in seeded/DETECTION.json)."
+                + (f" Not reported by a quick check: {', '.join(missed)} (thorough tier only, or not detected at all: see the last column)." if missed else ""))
     except Exception:
         pass
     return f"{n} seeded changes kept under /verif/seeded (each: patch.diff, demo_test.go.txt, meta.json).{note}\n\n" + "\n".join(out)
